@@ -28,6 +28,7 @@ RULE = (
     "non-trivial = two tasks are alive at the same time and at least one of them enters a block "
     "after the other was started"
 )
+RULE += ' Round 19: one task nesting 18 / 24 blocks next to its probing parent.'
 RULE += ' Round 16: the two-task family (L <= 2) with every synchronous block left with an exception.'
 RULE += ' Rounds 10-13: DEEP scripts (one task nests 4-12 (17) blocks next to observers); scopes whose only state comes from a disposable; several spawns into one scope from different positions / tasks, two tasks stepping in one loop iteration, the root running its script in one step.'
 ASSUMPTIONS = [
@@ -180,6 +181,12 @@ def _deep_programs(tier: str):
             if d <= 5:
                 # a sibling observer next to the deep task
                 yield {"scripts": [[0], deep, [1, -1]], "starts": [[0, 1, "spawn"], [0, 1, "create"]], "deep": d}
+    # VERY deep: one task nests 18 / 24 blocks next to its (probing) parent
+    for d in (18, 24):
+        for pattern in ((1, 3), (0, 1, 3)):
+            deep = [pattern[i % len(pattern)] for i in range(d)] + [-1] * d
+            for how in ("spawn", "create"):
+                yield {"scripts": [[2], deep], "starts": [[0, 1, how]], "deep": d}
     # scopes whose only state comes from a disposable (no positional state), in tasks sharing one
     # enclosing scope: what a disposable yields belongs to that scope alone
     ds = scripts(2, allowed=(0, 1, 9, 10))
